@@ -73,7 +73,10 @@ inductive Val where
   | int (i : Int)
   | str (s : String)
   | row (h : Nat)               -- handle into `St.rows`
-  | slot (name : String)        -- a forward-reference slot (`NicknameSlot`)
+  | slot (name : String)        -- a forward-reference slot (`NicknameSlot`) of the current iteration
+  | deadSlot (table : String) (id : Option Nat)
+      -- a slot object of an *earlier* iteration still held by a stored row or a variable: it keeps
+      -- the table and the id it had (`none`: it was never asked for an id)
   deriving Repr, DecidableEq, Inhabited
 
 structure RowData where
@@ -174,8 +177,23 @@ def generateId (s : St) (table : String) (nick : Option String) : Nat × St :=
     | some r => r
     | none => freshId s table
 
+/-- what a slot value becomes when its iteration ends (`reset_slots` replaces the slot objects; the
+    old objects stay wherever they were stored, with the id they held) -/
+def freezeVal (s : St) : Val → Val
+  | .slot n =>
+    .deadSlot ((aget s.names n).getD "")
+      (match aget s.slots n with
+       | some (.alloc i) => some i
+       | some (.consumed i) => some i
+       | _ => none)
+  | v => v
+
+def freezeRows (s : St) : List RowData :=
+  s.rows.map (fun r => { r with values := r.values.map (fun p => (p.1, freezeVal s p.2)) })
+
 def resetSlots (s : St) : St :=
-  { s with slots := s.names.map (fun p => (p.1, SlotSt.unused)), nick := [], seen := [] }
+  { s with slots := s.names.map (fun p => (p.1, SlotSt.unused)), nick := [], seen := [],
+           rows := freezeRows s }
 
 def notFilled (s : St) : List String :=
   (s.slots.filter (fun p => match p.2 with | .alloc _ => true | _ => false)).map (·.1)
@@ -270,6 +288,13 @@ def evalExpr (c : Ctx) : Expr → St → R Val
         | .ok (i, s2) => .ok (.int i, s2)
       else if slotAttrs.contains f ∨ f.startsWith "_" ∨ f.startsWith "yaml" then .error (.outside "attribute of slot")
       else .ok (.undef, s1)        -- jinja: getattr and getitem both fail -> Undefined
+    | .ok (.deadSlot _ i, s1) =>
+      if f = "id" then
+        match i with
+        | some k => .ok (.int k, s1)
+        | none => .error (.outside "id of a detached unused slot")
+      else if slotAttrs.contains f ∨ f.startsWith "_" ∨ f.startsWith "yaml" then .error (.outside "attribute of slot")
+      else .ok (.undef, s1)
     | .ok (.str _, _) => .error (.outside "attribute of string")
     | .ok (_, s1) => .ok (.undef, s1)
   | .add a b, s =>
@@ -324,6 +349,7 @@ def toStr (s : St) : Val → Except Err String
     | .int i => .ok (intToStr i)
     | _ => .error (.outside "row without int id")
   | .slot _ => .error (.outside "slot repr")
+  | .deadSlot _ _ => .error (.outside "slot repr")
 
 def allDigits (cs : List Char) : Bool := !cs.isEmpty ∧ cs.all isDigit
 
@@ -440,6 +466,13 @@ def renderRef (c : Ctx) (path : List String) (s : St) : R Val :=
               | .ok (i, s1) => walk (.int i) ps' s1
             else if slotAttrs.contains p ∨ p.startsWith "_" ∨ p.startsWith "yaml" then .error (.outside "attribute of slot")
             else .error (.recipe "no such attribute")
+          | .deadSlot _ i =>
+            if p = "id" then
+              match i with
+              | some k => walk (.int k) ps' s
+              | none => .error (.outside "id of a detached unused slot")
+            else if slotAttrs.contains p ∨ p.startsWith "_" ∨ p.startsWith "yaml" then .error (.outside "attribute of slot")
+            else .error (.recipe "no such attribute")
           | .undef => .error (.recipe "no such attribute")
           | .null => .error (.recipe "no such attribute")
           | _ => .error (.outside "attribute of scalar")
@@ -452,6 +485,10 @@ def renderRef (c : Ctx) (path : List String) (s : St) : R Val :=
           | .error e => .error e
           | .ok (_, s2) => .ok (.slot n, s2)
         | .row h => .ok (.row h, s1)
+        | .deadSlot t i =>
+          match i with
+          | some _ => .ok (.deadSlot t i, s1)
+          | none => .error (.outside "id of a detached unused slot")
         | .null => .error (.recipe "cannot find object")
         | .undef => .error (.recipe "cannot find object")
         | .int i => if i = 0 then .error (.recipe "cannot find object") else .error (.recipe "incorrect object type")
@@ -470,6 +507,7 @@ def countOf (_s : St) : Val → Except Err Nat
   | .undef => .error (.recipe "count undefined")
   | .row _ => .error (.recipe "count is a row")      -- `float(ObjectRow)` raises TypeError
   | .slot _ => .error (.recipe "count is a slot")
+  | .deadSlot _ _ => .error (.recipe "count is a slot")
 
 /-- output encoding of a value (`write_row` reads `.id` of rows and slots) -/
 def canon (s : St) : Val → R OVal
@@ -486,6 +524,10 @@ def canon (s : St) : Val → R OVal
     match slotId s n with
     | .error e => .error e
     | .ok (i, s1) => .ok (.ref ((aget s1.names n).getD "") i, s1)
+  | .deadSlot t i =>
+    match i with
+    | some k => .ok (.ref t k, s)
+    | none => .error (.outside "id of a detached unused slot")
 
 def canonFields : List (String × Val) → St → R (List (String × OVal))
   | [], s => .ok ([], s)
@@ -643,19 +685,21 @@ def iterations (fuel : Nat) (r : Recipe) : Nat → Ctx → Bool → St → R Ctx
     | .ok (c1, s1) =>
       match notFilled s1 with
       | _ :: _ => .error (.recipe "reference not fulfilled")
-      | [] => iterations fuel r k c1 true (resetSlots s1)
+      | [] =>
+        iterations fuel r k { c1 with vars := c1.vars.map (fun p => (p.1, freezeVal s1 p.2)) } true
+          (resetSlots s1)
 
 /-- what a continuation keeps: ids, persistent rows (their row-valued fields dropped, as
     `ObjectRow.__getstate__` does), name bindings; the output accumulates over the chain. -/
 def saveLoad (s : St) : St :=
   { s with nick := [], seen := [], slots := s.names.map (fun p => (p.1, SlotSt.unused)),
-           rows := s.rows.map (fun r => { r with values := r.values.filter (fun p =>
+           rows := (freezeRows s).map (fun r => { r with values := r.values.filter (fun p =>
              match p.2 with | .row _ => false | _ => true) }) }
 
 /-- `save_continuation_yaml` fails (RepresenterError) when a persistent row holds a slot value -/
 def saveFails (s : St) : Bool :=
   (s.pNick ++ s.pTable).any (fun p => (rowData s p.2).values.any (fun q =>
-    match q.2 with | .slot _ => true | _ => false))
+    match q.2 with | .slot _ => true | .deadSlot _ _ => true | _ => false))
 
 /-- a chain of runs: `parts = [k₁, …, k_m]` iterations each, linked by continuation files
     (a continuation file is written between runs, and after the last one iff `finalSave`) -/
